@@ -22,7 +22,7 @@ type c06Link struct {
 }
 
 type c06Ev struct {
-	// Op: est, lost, late (deliver queued late losses)
+	// Op: est, lost, late (deliver queued late losses), ooo (the transport reports the loss of a link before its establishment)
 	Op string `json:"op"`
 	L  int    `json:"l"`
 }
@@ -35,6 +35,8 @@ type c06Case struct {
 	// Concurrent delivers the events of link i from goroutine i%G.
 	Concurrent bool `json:"concurrent"`
 	G          int  `json:"g"`
+	// AcceptErr selects which error the links' AcceptStream returns once they are gone (link i uses AcceptErr+i)
+	AcceptErr int `json:"accept_err,omitempty"`
 }
 
 func (l c06Link) uuid() uint64 { return uint64(1000 + l.Remote*10 + l.Addr) }
@@ -44,6 +46,7 @@ func genC06(t *rapid.T) c06Case {
 		LossOnClose: rapid.SampledFrom([]string{"on", "on", "off", "late"}).Draw(t, "loc"),
 		Concurrent:  rapid.IntRange(0, 3).Draw(t, "conc") == 0,
 		G:           rapid.IntRange(2, 3).Draw(t, "g"),
+		AcceptErr:   rapid.IntRange(0, 4).Draw(t, "accepterr"),
 	}
 	nl := rapid.IntRange(2, 4).Draw(t, "nlinks")
 	for i := 0; i < nl; i++ {
@@ -58,7 +61,7 @@ func genC06(t *rapid.T) c06Case {
 	}
 	for i := 0; i < ne; i++ {
 		c.Events = append(c.Events, c06Ev{
-			Op: rapid.SampledFrom([]string{"est", "est", "est", "lost", "lost", "late"}).Draw(t, "op"),
+			Op: rapid.SampledFrom([]string{"est", "est", "est", "est", "lost", "lost", "lost", "late", "ooo"}).Draw(t, "op"),
 			L:  rapid.IntRange(0, nl-1).Draw(t, "l"),
 		})
 	}
@@ -109,6 +112,10 @@ func (m *c06Model) applies(ev c06Ev) bool {
 		return !m.dead[ev.L]
 	case "lost":
 		return m.established[ev.L] && !m.lossRep[ev.L] && m.links[ev.L].Remote != 0
+	case "ooo":
+		// a fresh link object whose uuid is not in use dies at once: loss and establishment are delivered swapped
+		_, inUse := m.current[m.links[ev.L].uuid()]
+		return !m.established[ev.L] && !m.dead[ev.L] && m.links[ev.L].Remote != 0 && !inUse
 	}
 	return true
 }
@@ -153,6 +160,11 @@ func (m *c06Model) step(ev c06Ev) {
 		}
 	case "late":
 		// queued losses are all for links that are no longer current: no effect on the table
+	case "ooo":
+		// the link is gone before it is announced: it must not stay registered, and is closed
+		m.lossRep[l] = true
+		m.dead[l], m.mustClose[l] = true, true
+		m.classes["loss-reported-before-establishment"] = true
 	}
 }
 
@@ -206,6 +218,14 @@ func (x *c06Run) apply(ev c06Ev) {
 		// the link died: it no longer accepts streams, and reports its loss
 		x.links[ev.L].Kill()
 		x.reportLoss(x.links[ev.L])
+	case "ooo":
+		x.links[ev.L].Kill()
+		x.reportLoss(x.links[ev.L])
+		x.n.handler.HandleLinkEstablished(x.links[ev.L])
+		// the establishment may be applied on a later goroutine and the dead link is then taken out again: the
+		// state before and after is the same, so wait for the one lasting effect (the controller closes the link)
+		fl := x.links[ev.L]
+		waitFor(5*time.Second, func() bool { return fl.CloseCount() > 0 })
 	case "late":
 		x.mu.Lock()
 		q := x.late
@@ -325,6 +345,7 @@ func checkC06(c c06Case) (o vstat.Outcome) {
 	x := &c06Run{r: r, n: r.nodes[0], rep: map[*fakes.Link]bool{}, mode: c.LossOnClose}
 	for i, l := range c.Links {
 		fl := fakes.NewLink(fmt.Sprintf("l%d", i), l.uuid(), x.n.peerID, gen.PeerID(l.Remote))
+		fl.AcceptErr = fakes.ClosedAcceptError(c.AcceptErr + i)
 		fl.TptID = x.n.tpt.uuid
 		fl.SetOnClose(x.onClose)
 		x.links = append(x.links, fl)
@@ -402,6 +423,19 @@ func checkC06(c c06Case) (o vstat.Outcome) {
 			linkState[ev.L] = 1
 		case "lost":
 			if linkState[ev.L] != 1 {
+				continue
+			}
+			linkState[ev.L] = 2
+		case "ooo":
+			// only for fresh link objects whose uuid no other link of the case uses (what a dead link that
+			// displaces a live one of the same uuid should do is not asserted)
+			shared := false
+			for j, ol := range c.Links {
+				if j != ev.L && ol.uuid() == c.Links[ev.L].uuid() {
+					shared = true
+				}
+			}
+			if linkState[ev.L] != 0 || shared {
 				continue
 			}
 			linkState[ev.L] = 2
